@@ -325,6 +325,16 @@ class ModuleV:
         return f"<module {self.name}>"
 
 
+class LibModule:
+    """a private helper module of the analysed library (`optimism/_xxx.py`): its source is interpreted like the module under analysis;
+    `env` holds its globals (functions defined there close over *that* environment, not over the globals of the importing module)"""
+    def __init__(self, name, env):
+        self.name, self.env = name, env
+
+    def __repr__(self):
+        return f"<library module {self.name}>"
+
+
 class FileObj:
     def __init__(self):
         self.out = []           # ('str', atoms, prov)  |  ('rep', [items], count Poly)
